@@ -116,6 +116,9 @@ type Program struct {
 	helpers []*function
 	structs []*Type
 	all     []*stmt
+	// globals are package-level declarations that main's parameters shadow
+	// (dead under correct scoping: nothing reads the package-level value)
+	globals []string
 }
 
 type gen struct {
@@ -1482,6 +1485,22 @@ func Generate(r *vrt.Rng, cfg Config) *Program {
 	m.body = g.block(nst, 2, m.results, true, true)
 	g.pop()
 	m.sig = sig("main", ps, rs)
+	// package-level names shadowed by main's parameters: a constant or a variable
+	// with the name of a scalar parameter; main must keep reading its own parameter
+	if g.r.Intn(3) == 0 {
+		for _, v := range m.params {
+			if !v.t.Integer() || g.r.Bool() {
+				continue
+			}
+			l := g.lit(v.t)
+			if g.r.Bool() {
+				p.globals = append(p.globals, fmt.Sprintf("const %s = %s", v.name, l.src))
+			} else {
+				p.globals = append(p.globals, fmt.Sprintf("var %s %s = %s", v.name, v.t.Src(), l.src))
+			}
+			g.feat["package-level-name-shadowed-by-parameter"] = true
+		}
+	}
 	p.mainFn = m
 	p.helpers = g.funcs
 	p.structs = g.types
@@ -1500,6 +1519,12 @@ func (p *Program) Render() string {
 			fmt.Fprintf(&sb, "\t%s %s\n", f.Name, f.T.Src())
 		}
 		sb.WriteString("}\n\n")
+	}
+	for _, gl := range p.globals {
+		sb.WriteString(gl + "\n")
+	}
+	if len(p.globals) > 0 {
+		sb.WriteString("\n")
 	}
 	fn := func(f *function) {
 		sb.WriteString(f.sig + "\n")
